@@ -128,6 +128,13 @@ def _pin_engine(ctx):
     from crosshair.tracers import NoTracing
     import unified_planning.model.walkers.type_checker as tcm
 
+    from vf import shims
+
+    if not hasattr(shims.SynMap, "__delitem__"):  # create_node removes a rejected node from its table again
+        def __delitem__(self, k):
+            del self._d[self._k(k)]
+
+        shims.SynMap.__delitem__ = __delitem__
     with NoTracing():
         context_statespace().extra(ModelingDirector).global_representations[float] = RealBasedSymbolicFloat
         if not isinstance(tcm.math, _MathProxy):
